@@ -128,3 +128,17 @@ func directPrograms(thorough bool) []directProgram {
 	}
 	return ps
 }
+
+type sweepProgram struct{ Name, Src string }
+
+// programs for the memory-limit sweep
+func sweepPrograms() []sweepProgram {
+	long := strings.Repeat("x = (x + 1) - 1\n", 120)
+	return []sweepProgram{
+		// a loop whose `break` is compiled before a long rest of the body (pinned: VM compiler defect)
+		{"loop-with-break", "access(all) fun main(): Int {\nvar x = 0\nwhile x < 10 {\nif x > 5 { break }\nx = x + 1\n" + long + "}\nreturn x\n}\n"},
+		{"for-switch-functions", "access(all) fun f(_ n: Int): Int {\nvar a: [Int] = []\nvar i = 0\nwhile i < n { a.append(i)\n i = i + 1 }\nvar s = 0\nfor v in a { s = s + v }\nreturn s\n}\n" +
+			"access(all) fun main(): Int {\nvar t = 0\nvar k = 0\nwhile k < 20 {\nswitch k {\ncase 3: t = t + f(k)\ndefault: t = t + 1\n}\nk = k + 1\n}\nlet d: {Int: String} = {1: \"a\", 2: \"b\"}\nreturn t + d.length\n}\n"},
+		{"recursion-strings", "access(all) fun g(_ n: Int, _ s: String): String {\nif n == 0 { return s }\nreturn g(n - 1, s.concat(n.toString()))\n}\naccess(all) fun main(): Int {\nreturn g(40, \"\").length\n}\n"},
+	}
+}
